@@ -19,7 +19,7 @@ RULE = (
 REQUIRED = ["get_rc_checked", "idempotence_checked", "extract_k_checked", "chain_checked", "core_flag_checked",
             "renumbering_relation_checked", "hh_bond_cases", "half_order_changes", "product_only_bonds",
             "contexts_strictly_growing", "disconnected_centres", "derived_graph_contexts_checked", "hh_bond_with_both_ends_in_other_centre_bonds",
-            "inplace_edit_contexts_checked", "one_sided_atom_pairs"]
+            "inplace_edit_contexts_checked", "one_sided_atom_pairs", "synthetic_its/construct(store=True)"]
 ASSUMPTIONS = [
     "ITS graphs built with default flags (ignore_aromaticity=False): standard_order is the plain difference",
     "centre node attributes compared: element, charge, typesGH, atom_map (the documented selection)",
@@ -29,12 +29,17 @@ BUDGET_S = {"quick": 50, "thorough": 500}
 KEYS = ["element", "charge", "typesGH", "atom_map"]
 
 
+def is_h(el):
+    """hydrogen label; ITSConstruction.construct(store=True) keeps (reactant-side, product-side) pairs per attribute."""
+    return el == "H" or (isinstance(el, tuple) and len(el) == 2 and all(x == "H" for x in el))
+
+
 def expected_rc(its):
     edges = {}
     for u, v, d in its.edges(data=True):
         o = d.get("order")
         changed = isinstance(o, tuple) and o[0] != o[1]
-        hh = its.nodes[u].get("element") == "H" and its.nodes[v].get("element") == "H"
+        hh = is_h(its.nodes[u].get("element")) and is_h(its.nodes[v].get("element"))
         if changed or hh:
             edges[frozenset((u, v))] = d
     nodes = {n for e in edges for n in e}
@@ -161,7 +166,7 @@ def check_inplace_edits(ctx, its, wit):
         RadiusExpand.extract_k(w, k)
     rng = ctx.rng
     same = [(u, v) for u, v, d in w.edges(data=True) if d["order"][0] == d["order"][1] and d["order"][0]
-            and not (w.nodes[u].get("element") == "H" and w.nodes[v].get("element") == "H")]
+            and not (is_h(w.nodes[u].get("element")) and is_h(w.nodes[v].get("element")))]
     diff = [(u, v) for u, v, d in w.edges(data=True) if d["order"][0] != d["order"][1]]
     edits = []
     if same:
@@ -260,7 +265,14 @@ def synthetic_its(rng):
             side.add_node(x, element=rng.choice(["C", "O", "S", "N"]), hcount=0, charge=0, aromatic=False, atom_map=x, neighbors=[])
             side.add_edge(prev, x, order=float(rng.choice([1, 1, 2])))
             prev = x
+    if rng.random() < 0.3:
+        STYLE[0] = "construct(store=True)"
+        return ITSConstruction.construct(G, H)    # the newer constructor: attributes stored as (reactant, product) pairs
+    STYLE[0] = "ITSGraph"
     return ITSConstruction().ITSGraph(G, H)
+
+
+STYLE = [None]
 
 
 def its_desc(its):
@@ -306,6 +318,7 @@ def run(ctx):
             ctx.count("synthetic_truncated_by_budget")
             break
         its = synthetic_its(rng)
+        ctx.count("synthetic_its/" + STYLE[0])
         check_its(ctx, its, "synthetic ITS graphs (<=9 atoms; H-H bonds, product-only bonds, 0.5 order changes)",
                   ("syn", its_desc(its)), {"its": its_desc(its)})
 
